@@ -260,6 +260,7 @@ type ProbeSpec struct {
 	BoolResult bool // what IsBoolFlag returns (when present)
 	FailAt     int  // the FailAt-th Set call in the run phase fails (0 = never)
 	FailDecl   int  // the FailDecl-th Set call in the declaration phase fails (0 = never)
+	YieldInSet bool // scheduled worlds: a Run-phase Set is a scheduling point (the value type is simulator-owned code)
 }
 
 func (s *ProbeSpec) Describe() string {
@@ -305,6 +306,7 @@ func (c Call) String() string {
 
 type probeCore struct {
 	spec     *ProbeSpec
+	inst     *Instance
 	proc     *Proc
 	name     string
 	Log      []Call
@@ -317,6 +319,11 @@ type probeCore struct {
 var errProbeSet = errors.New("probe value refuses this token")
 
 func (c *probeCore) Set(s string) error {
+	if c.spec.YieldInSet && c.declared && c.inst != nil {
+		if sc := theSched; sc != nil && !raceMode {
+			sc.yield(c.inst.Proc, "value.Set")
+		}
+	}
 	call := Call{Method: "Set", Arg: s, Run: c.declared}
 	fail := false
 	if c.declared {
@@ -377,8 +384,8 @@ func (p pBD) IsDefault() bool   { return p.isDefault() }
 func (p pCD) IsDefault() bool   { return p.isDefault() }
 func (p pBCD) IsDefault() bool  { return p.isDefault() }
 
-func newProbe(spec *ProbeSpec, proc *Proc, name string) (flag.Value, *probeCore) {
-	c := &probeCore{spec: spec, proc: proc, name: name}
+func newProbe(spec *ProbeSpec, inst *Instance, name string) (flag.Value, *probeCore) {
+	c := &probeCore{spec: spec, inst: inst, proc: inst.Proc, name: name}
 	switch {
 	case spec.HasBool && spec.HasClear && spec.HasDefault:
 		return pBCD{c}, c
@@ -689,7 +696,7 @@ func (inst *Instance) declare(c *cli.Cmd, cd *CmdDecl, d *Decl) {
 			bv.ptr = c.Floats64(prm)
 		}
 	case KVar:
-		val, core := newProbe(d.Probe, inst.Proc, key)
+		val, core := newProbe(d.Probe, inst, key)
 		bv.probe = core
 		if d.IsArg {
 			c.Var(cli.VarArg{Name: d.Name, Desc: d.Desc, EnvVar: env, Value: val, HideValue: d.HideValue, SetByUser: bv.sbu})
